@@ -162,12 +162,26 @@ def _ctx():
         lambda h, i: ("coalesce", [("opt", _q(i, "f")), h, ("ds", f"cm{i}", {"params": []})]),
         lambda i: [(_q(i, "f"), [ABSENT, "first"])],
     )
+    add(
+        "coalesce_dom",
+        ANY,
+        alt,
+        # first member: its key can be present and still make the member fail (value outside the domain)
+        lambda h, i: ("coalesce", [("optdom", _q(i, "g"), None, ("vals", [1])), h]),
+        lambda i: [(_q(i, "g"), [ABSENT, 1, 5])],
+    )
     add("list", ANY, Jl, lambda h, i: ("list", [("val", 0), h]))
     add("tuple", ANY, tag, lambda h, i: ("tuple", [("val", 0), h]))
     add("set", ("h",), J, lambda h, i: ("set", [("val", 0), h]))
     add("dict", ANY, Jl, lambda h, i: ("dict", [("k", h)]))
     add("iter", ANY, Jl, lambda h, i: ("apply", ("iter", [h, ("val", 0)]), ("fn", "f_list")))
     add("map_ev", ANY, I, lambda h, i: ("map", h, [(_q(i, "m"), ("val", [1, 2]))]))
+    add(
+        "map2_ev",
+        ANY,
+        I,
+        lambda h, i: ("map", h, [(_q(i, "m"), ("val", [1, 2])), (_q(i, "k"), ("val", ["x", "y"]))]),
+    )
     add("mapvalues_ev", ANY, I, lambda h, i: ("mapvalues", h, [("A", ("val", [1, 3]))]))
     add(
         "map_iter",
